@@ -159,14 +159,12 @@ theorem expected_eq_of_same_lattice (n : ℕ) (rels rels' : List (List ℤ))
     detDivisor_eq_dk _ rels.length n k (relMatrix_rect n rels)]
   exact Nat.dvd_antisymm (dk_dvd_of_rowsIn n rels' rels h2 k) (dk_dvd_of_rowsIn n rels rels' h1 k)
 
-/-- … and, when neither run overflows, the same result -/
+/-- … and the same result -/
 theorem abelianInvariants_same_lattice (n : ℕ) (rels rels' : List (List ℤ))
     (hin : ∀ w ∈ rels, ∀ g ∈ w, InRange n g) (hin' : ∀ w ∈ rels', ∀ g ∈ w, InRange n g)
-    (hb : ((abelianInvariantsB n rels).2 : ℤ) < isizeMax)
-    (hb' : ((abelianInvariantsB n rels').2 : ℤ) < isizeMax)
     (h1 : RowsIn n rels rels') (h2 : RowsIn n rels' rels) :
     abelianInvariants n rels' = abelianInvariants n rels := by
-  rw [abelianInvariants_eq_expected n rels hin hb, abelianInvariants_eq_expected n rels' hin' hb',
+  rw [abelianInvariants_eq_expected n rels hin, abelianInvariants_eq_expected n rels' hin',
     expected_eq_of_same_lattice n rels rels' h1 h2]
 
 /-! ### the clauses of the property on relators -/
@@ -349,12 +347,10 @@ theorem rename_inRange {n : ℕ} (π : Equiv.Perm (Fin n)) (flip : Fin n → Boo
   exact renameLetter_inRange π flip g0 (hin w0 hw0 g0 hg0)
 
 theorem abelianInvariants_rename {n : ℕ} (π : Equiv.Perm (Fin n)) (flip : Fin n → Bool)
-    (rels : List (List ℤ)) (hin : ∀ w ∈ rels, ∀ g ∈ w, InRange n g)
-    (hb : ((abelianInvariantsB n rels).2 : ℤ) < isizeMax)
-    (hb' : ((abelianInvariantsB n (rels.map (renameWord π flip))).2 : ℤ) < isizeMax) :
+    (rels : List (List ℤ)) (hin : ∀ w ∈ rels, ∀ g ∈ w, InRange n g) :
     abelianInvariants n (rels.map (renameWord π flip)) = abelianInvariants n rels := by
-  rw [abelianInvariants_eq_expected n rels hin hb,
-    abelianInvariants_eq_expected n _ (rename_inRange π flip rels hin) hb',
+  rw [abelianInvariants_eq_expected n rels hin,
+    abelianInvariants_eq_expected n _ (rename_inRange π flip rels hin),
     expected_rename π flip rels hin]
 
 end DSymVerif.Inv
